@@ -1,10 +1,12 @@
 #!/venv/bin/python
 """Sensitivity self-test: each planted change must be reported by the owning check.
 
-Applies each patch of selftest/patches/index.json and seeded/*/meta.json to /repo
-(git apply), runs the owning property's check, expects exit 1 + a VIOLATION line, and
-restores /repo (git checkout -- .) straight afterwards.  /repo must be clean before.
-usage: sensitivity.py [--tier quick] [--only name-substring] [--budget seconds]
+Applies each patch of selftest/patches/index.json and seeded/*/meta.json to a scratch git
+worktree of /repo's HEAD (under /tmp, removed afterwards), runs the owning property's check
+against that checkout (VERIF_REPO=<scratch>), and expects exit 1 + a VIOLATION line.  /repo
+itself is not touched, so this can run next to a soak.  With --in-place the patch is applied
+to /repo instead (git apply ... git checkout -- .), exactly as an external user would.
+usage: sensitivity.py [--tier quick] [--only name-substring] [--budget seconds] [--in-place]
 """
 import json
 import os
@@ -22,17 +24,29 @@ def sh(*a, **k):
 def main():
     args = sys.argv[1:]
     tier, only, budget = "quick", None, None
+    in_place = False
     while args:
         a = args.pop(0)
+        if a == "--in-place":
+            in_place = True
+            continue
         if a == "--tier":
             tier = args.pop(0)
         elif a == "--only":
             only = args.pop(0)
         elif a == "--budget":
             budget = args.pop(0)
-    if sh("git", "-C", "/repo", "status", "--porcelain", "--untracked-files=no").stdout.strip():
+    if in_place and sh("git", "-C", "/repo", "status", "--porcelain", "--untracked-files=no").stdout.strip():
         print("refusing: /repo has uncommitted changes")
         return 2
+    scratch = "/tmp/sens_wt_%d" % os.getpid()
+    target = "/repo"
+    if not in_place:
+        r = sh("git", "-C", "/repo", "worktree", "add", "--detach", scratch, "HEAD")
+        if r.returncode != 0:
+            print("cannot create scratch worktree:", r.stdout[-300:])
+            return 2
+        target = scratch
     cases = []
     idx = json.load(open(os.path.join(ROOT, "selftest", "patches", "index.json")))
     for name, meta in idx.items():
@@ -49,7 +63,7 @@ def main():
         if only and only not in name:
             continue
         t0 = time.time()
-        r = sh("git", "-C", "/repo", "apply", "--whitespace=nowarn", patch)
+        r = sh("git", "-C", target, "apply", "--whitespace=nowarn", patch)
         if r.returncode != 0:
             results.append((name, pid, "PATCH-DOES-NOT-APPLY", 0))
             print(name, pid, "PATCH-DOES-NOT-APPLY", r.stdout[-300:])
@@ -58,9 +72,11 @@ def main():
             env = dict(os.environ)
             if budget:
                 env["VERIF_BUDGET"] = budget
+            if not in_place:
+                env["VERIF_REPO"] = target
             out = sh(sys.executable, os.path.join(ROOT, "run_check.py"), pid, tier, env=env)
         finally:
-            sh("git", "-C", "/repo", "checkout", "--", ".")
+            sh("git", "-C", target, "checkout", "--", ".")
         caught = out.returncode == 1 and ("VIOLATION property=%s" % pid) in out.stdout
         results.append((name, pid, "caught" if caught else "MISSED(exit=%d)" % out.returncode, time.time() - t0))
         first = next((ln for ln in out.stdout.splitlines() if ln.startswith("VIOLATION")), "")
@@ -72,6 +88,9 @@ def main():
         print("%-40s %s %-14s %5.0fs  %s %s" % (name, pid, results[-1][2], results[-1][3], first[:90], nxt))
         sys.stdout.flush()
     # leave evidence files as a clean run would: re-running the checks is the caller's business
+    if not in_place:
+        sh("git", "-C", "/repo", "worktree", "remove", "--force", scratch)
+        sh("git", "-C", "/repo", "worktree", "prune")
     missed = [r for r in results if r[2] != "caught"]
     print("%d planted changes, %d caught, %d missed" % (len(results), len(results) - len(missed), len(missed)))
     return 1 if missed else 0
